@@ -36,8 +36,8 @@ m("c01-u128-bigendian-scalar", "src/codec.rs",
 m("c01-result-tags-swapped", "src/codec.rs",
   "Ok(ref t) => {\n\t\t\t\tdest.push_byte(0);\n\t\t\t\tt.encode_to(dest);\n\t\t\t},\n\t\t\tErr(ref e) => {\n\t\t\t\tdest.push_byte(1);",
   "Ok(ref t) => {\n\t\t\t\tdest.push_byte(1);\n\t\t\t\tt.encode_to(dest);\n\t\t\t},\n\t\t\tErr(ref e) => {\n\t\t\t\tdest.push_byte(0);", ["C01", "C02"])
-m("c01-bitvec-wrong-padding", "src/bit_vec.rs",
-  "let mut element = T::ZERO;", "let mut element = if chunk.len() < core::mem::size_of::<T>() * 8 { !T::ZERO } else { T::ZERO };", ["C01", "C06"])
+m("c01-bitvec-msb-lsb-confused", "src/bit_vec.rs",
+  "element.view_bits_mut::<O>()[..chunk.len()].copy_from_bitslice(chunk);", "if chunk.len() == 5 { element.view_bits_mut::<bitvec::order::Lsb0>()[..chunk.len()].clone_from_bitslice(chunk); } else { element.view_bits_mut::<O>()[..chunk.len()].copy_from_bitslice(chunk); }", ["C01", "C06"])
 
 # ---- C02
 m("c02-second-chunk-offset", "src/codec.rs",
@@ -93,7 +93,7 @@ m("c09-with-capacity", "src/codec.rs",
 m("c09-max-prealloc-1g", "src/codec.rs",
   "pub(crate) const MAX_PREALLOCATION: usize = 16 * 1024;", "pub(crate) const MAX_PREALLOCATION: usize = 1024 * 1024 * 1024;", ["C09"])
 m("c09-bytes-split-no-check", "src/codec.rs",
-  "if length > self.bytes.len() {\n\t\t\treturn Err(\"Not enough data to fill buffer\".into());\n\t\t}\n\n\t\tself.on_before_alloc_mem(length)?;", "self.on_before_alloc_mem(length)?;\n\t\tif length > self.bytes.len() {\n\t\t\tlet _v: Vec<u8> = Vec::with_capacity(length);\n\t\t\treturn Err(\"Not enough data to fill buffer\".into());\n\t\t}", ["C09"])
+  "if length > self.bytes.len() {\n\t\t\treturn Err(\"Not enough data to fill buffer\".into());\n\t\t}\n\n\t\tself.on_before_alloc_mem(length)?;", "self.on_before_alloc_mem(length)?;\n\t\tif length > self.bytes.len() {\n\t\t\tlet mut v: Vec<u8> = Vec::with_capacity(length); v.push(0); drop(core::hint::black_box(v));\n\t\t\treturn Err(\"Not enough data to fill buffer\".into());\n\t\t}", ["C09"])
 
 # ---- C10
 m("c10-count-before-init", "src/codec.rs",
